@@ -57,6 +57,11 @@ Definition st_first (st : jst) (r : option (list dnode)) : jst := mk_jst (j_leve
 (* PRINT_COMMA *)
 Definition jcomma (st : jst) : bytes := if j_level st <=? j_lp st then [44] else [].
 
+(* is_open_array(): the innermost open array is an array of instances of the node's schema node. Since e077458 the C
+   function also asks that the array's first node and the node have the same parent, and skips the marker pushed around
+   the data tree of an anydata node. In the modelled domain (no anydata content, no opaque nodes) that changes nothing:
+   the open arrays are arrays of the node's siblings or of its ancestors, and an ancestor never is an instance of the
+   node's own schema node (the sid of a node is larger than its parent's, JsonDoc.parents_ltb). *)
 Definition is_open (st : jst) (s : sid) : bool :=
   match j_open st with o :: _ => o =? s | [] => false end.
 
@@ -96,11 +101,13 @@ Section PrinterSM.
         (o1 ++ [123] ++ o2 ++ [125], st_printed (st_dec st2))
     end.
 
-  (* json_print_meta_attr_leaflist(): one entry per instance of the run, null where there is no metadata *)
+  (* json_print_meta_attr_leaflist(): one entry per PRINTED instance of the run (since f592167; before, also for the
+     instances the node selection hides), null where there is no metadata *)
   Fixpoint jmeta_entries (st : jst) (run : list dnode) : bytes * jst :=
     match run with
     | [] => ([], st)
     | n :: r =>
+        if negb (sel n) then jmeta_entries st r else
         let c := jcomma st in
         let '(o, st1) :=
           match d_meta n with
@@ -146,7 +153,18 @@ Section PrinterSM.
         (* json_print_array_is_last_inst + json_print_array_close *)
         let close_if_last (st : jst) : bytes * jst :=
           if is_open st s && negb next_same then ([93], st_close (st_dec st)) else ([], st) in
-        if negb (sel n) then close_if_last st
+        (* the pending metadata of a leaf-list is written when the next sibling is not an instance of it *)
+        let flush (o : bytes) (st2 : jst) : bytes * jst :=
+          match j_first st2 with
+          | Some run =>
+              let fs := match run with x :: _ => d_sid x | [] => 0 end in
+              if match nexts with x :: _ => d_sid x =? fs | [] => false end then (o, st2)
+              else let '(o', st3) := jmeta_arr st2 par run in (o ++ o', st_first st3 None)
+          | None => (o, st2)
+          end in
+        if negb (sel n) then
+          (* not printed (since f592167): a closed array marks its level printed, and the pending metadata is written here too *)
+          if is_open st s && negb next_same then flush [93] (st_printed (st_close (st_dec st))) else flush [] st
         else
           let '(o, st1) :=
             match kind_of sch s with
@@ -174,14 +192,7 @@ Section PrinterSM.
                 (o1 ++ o2 ++ o3, stc)
             | KAny => (jmember st par s false ++ [123; 125], st_printed st)      (* not modelled *)
             end in
-          let st2 := st_printed st1 in                       (* pctx->level_printed = pctx->level *)
-          match j_first st2 with
-          | Some run =>
-              let fs := match run with x :: _ => d_sid x | [] => 0 end in
-              if match nexts with x :: _ => d_sid x =? fs | [] => false end then (o, st2)
-              else let '(o', st3) := jmeta_arr st2 par run in (o ++ o', st_first st3 None)
-          | None => (o, st2)
-          end
+          flush o (st_printed st1)                           (* pctx->level_printed = pctx->level *)
     end.
 
   Fixpoint json_siblings (par : option N) (prev : list dnode) (l : list dnode) (st : jst) : bytes * jst :=
